@@ -86,3 +86,4 @@ Example C19_nonvacuous :
                                  else if String.eqb k "X" then Some (mkparts "" "" "below of X.x" "") else None)
                        [["D"; "A"; "X"]; ["A"]] []) EMPTY_PARTS) = "".
 Proof. vm_compute. repeat split; reflexivity. Qed.
+Print Assumptions C19_nonvacuous.
